@@ -4,12 +4,15 @@
    the vehicle's level , which is what is booked as gained (C05_gained_is_added) and its price the amount debited/credited; a pickup is
    stamped with the time at which its step starts (so its waiting time is >= 0 and, by the cancel rule C03_cancel_once, at most
    timeout + one step); cancel and pickup events coincide with the removal of the request.
-   PARTIAL: sums over whole runs, the station-load events, the summary counts and the round-trip through the file-writing
+   Over whole histories (C19_events_explain_vehicles, macro frame theorem; any controller; from a loaded state with nothing
+   filed yet): per vehicle the distances of its move events sum to the growth of its odometer and the energies of its charge
+   events to the growth of energy_gained.  (The waiting-map / pickup / cancel accounting over histories is C03_ledger_over_histories.)
+   PARTIAL: the station-load events, the summary counts and the round-trip through the file-writing
    handlers are decided by the log engine harness/eng_c19.py + monitors, not by theorems. *)
 From Hive.Base Require Import Prelude.
 From Hive.Model Require Import Types KernelBase SimOps States Step.
 From Hive.Gen Require Import Kernels.
-From Hive.Proofs Require Import Trip Move.
+From Hive.Proofs Require Import Trip Move VehFrame Macro CountInv AcctInv.
 Local Open Scope Q_scope.
 
 Theorem C19_move_event : forall env s vid s', move env s vid = Ok s' -> move_outcome env s vid s'.
@@ -38,5 +41,15 @@ Theorem C19_pickup_event : forall env s vid rid s', pick_up_trip env s vid rid =
     log s' = EvPickup rid vid (sim_time s) (r_dep r) (r_value r) :: log s /\
     stations s' = stations s /\ bases s' = bases s.
 Proof. exact pick_up_trip_spec. Qed.
+Theorem C19_events_explain_vehicles : forall env ops s0, vkeys s0 -> skeys (stations s0) -> Forall op_ok ops -> log s0 = [] ->
+  let s := fold_left (step_op env) ops s0 in
+  forall k v0, find k (vehicles s0) = Some v0 -> exists v, find k (vehicles s) = Some v /\
+     (v_odo v == v_odo v0 + total ev_moved (log s) k)%Q /\ (v_gained v == v_gained v0 + total ev_charged (log s) k)%Q.
+Proof.
+  intros env ops s0 K SK O L. destruct (books_over_histories env ops s0 K SK O L) as [V _]. cbv zeta.
+  intros k v0 F. destruct (V k v0 F) as (v & Fv & (A & G & _)). eauto.
+Qed.
+Print Assumptions C19_events_explain_vehicles.
+
 Print Assumptions C19_move_event. Print Assumptions C19_move_event_distance.
 Print Assumptions C19_charge_event. Print Assumptions C19_pickup_event.
